@@ -1,10 +1,397 @@
-import DefconModel.Notify
+/-
+C04 — Notification centre delivers exactly the right notifications, once, in order.
+
+Property theorems about M-Notify (`DefconModel/Notify.lean`, the executable model of
+`Lib/defcon/tools/notifications.py`).  Helper lemmas are in `Lemmas/Notify.lean`.
+`rec` is the interpreter for operations issued from inside observer callbacks; theorems that
+quantify over `rec`/`fuel`/scripts hold for every re-entrant behaviour.
+-/
+import DefconModel.Lemmas.Notify
+
 namespace DefconModel.Props.C04
 open DefconModel DefconModel.Notify
 
-theorem placeholder_glob_star (s : List Char) : glob ['*'] s = true := by
-  induction s with
-  | nil => simp [glob]
-  | cons c s ih => simp [glob, ih]
+/-! ## 1. Structural invariant of every reachable state (any history, any re-entrancy) -/
+
+/-- One operation — whatever callbacks it triggers, whatever those callbacks do, to any nesting
+depth — preserves the invariant: registry keys unique, no empty inner dict, one registration per
+(key, observer), hold/disable counts positive, no duplicate pending notification in a hold. -/
+theorem inv_exec (fuel : Nat) (c : Center) (op : Op) (h : Inv c) : Inv (exec fuel c op).1 :=
+  inv_exec_aux fuel c op h
+
+/-- Every state reachable from the empty centre by any operation sequence satisfies it. -/
+theorem inv_reachable (fuel : Nat) (ops : List Op) : Inv (run fuel {} ops).1 :=
+  runAll_preserves Inv (exec fuel) (fun c op h => inv_exec fuel c op h) {} ops inv_init
+
+/-! ## 2. The two-level registry refines "one ordered list of registrations per key" -/
+
+/-- addObserver on a fresh (key, observer): appended at the end of that key's list; other keys untouched. -/
+theorem refines_add (c : Center) (o : Obj) (m : Meth) (k : RKey) (ident : Option String)
+    (hno : hasReg c k o = false) (k2 : RKey) :
+    (add c o m k ident).2 = .ok ∧
+    regsAt (add c o m k ident).1 k2 = if k = k2 then regsAt c k ++ [⟨o, m, ident⟩] else regsAt c k2 := by
+  refine ⟨?_, regsAt_add_ok hno k2⟩
+  unfold add; simp [hno]
+
+/-- a second registration of the same observer under the same key is rejected, state unchanged -/
+theorem refines_add_dup (c : Center) (o : Obj) (m : Meth) (k : RKey) (ident : Option String)
+    (h : hasReg c k o = true) : add c o m k ident = (c, .err .assertionError) := add_dup h
+
+/-- removeObserver removes exactly that observer's registration under exactly that key -/
+theorem refines_remove (c : Center) (h : Inv c) (o : Obj) (k k2 : RKey) :
+    regsAt (removeKey c o k) k2 =
+      if k = k2 then (regsAt c k).filter (fun r => r.observer ≠ o) else regsAt c k2 :=
+  regsAt_removeKey h o k k2
+
+/-- removeObserver(…, "all", observable) removes the observer from every key of that observable
+and from no other key -/
+theorem refines_removeAll (c : Center) (h : Inv c) (o : Obj) (s : Option Obj) (k2 : RKey) :
+    regsAt (removeAll c o s).1 k2 =
+      if k2.2 = s then (regsAt c k2).filter (fun r => r.observer ≠ o) else regsAt c k2 :=
+  regsAt_removeAll h o s k2
+
+/-- … and raises KeyError exactly when there is nothing to remove -/
+theorem removeAll_rejects_iff (c : Center) (h : Inv c) (o : Obj) (s : Option Obj) :
+    (removeAll c o s).2 = .err .keyError ↔ ∀ k : RKey, k.2 = s → hasReg c k o = false :=
+  removeAll_err_iff h o s
+
+/-- hasObserver answers membership in the key's list -/
+theorem has_exact (c : Center) (k : RKey) (o : Obj) :
+    hasReg c k o = true ↔ ∃ r ∈ regsAt c k, r.observer = o := by
+  unfold hasReg; simp [List.any_eq_true]
+
+/-! ## 3. Exact deliveries -/
+
+/-- A post that no sender-side suspension catches delivers — when callbacks issue no operations —
+exactly to the registrations under `(None,None)`, `(None,s)`, `(n,None)`, `(n,s)` in that key
+order and registration order within a key, skipping precisely those that are disabled, held or
+dead for that observer (or excluded by the private target of a re-post); only hold queues change. -/
+theorem post_exact (rec : Center → Op → Center × List Ev) (c : Center) (n : Name) (s : Obj) (d : Data)
+    (t : Option Obj) (hs : c.scripts = []) (hd : isDisabled c (senderKeys n s) = false)
+    (hh : firstHold c (senderKeys n s) = none) :
+    (post rec c n s d t).2 = ((matching c n s).filter (deliverable c n s t)).map (deliverEv n s d) ∧
+    SameShape c (post rec c n s d t).1 :=
+  ⟨(post_exact_aux rec c n s d t hs hd hh).2, (post_exact_aux rec c n s d t hs hd hh).1⟩
+
+/-- Each registration is delivered once: a key's list never names an observer twice. -/
+theorem each_once (c : Center) (h : Inv c) (k : RKey) : ((regsAt c k).map (·.observer)).Nodup :=
+  regsAt_nodup h k
+
+private theorem deliverOne_plain (rec : Center → Op → Center × List Ev) (n : Name) (s : Obj) (d : Data)
+    (c : Center) (r : Reg) (hh : c.holds = []) (hd : c.disabled = []) (hs : c.scripts = []) :
+    deliverOne rec n s d none c r =
+      (c, if r.observer ∈ c.dead then [] else [deliverEv n s d r]) := by
+  unfold deliverOne callback
+  simp [isDisabled, firstHold, AL.contains, hh, hd, hs, observerKeys, deliverEv]
+  split <;> rfl
+
+private theorem runAll_deliverOne_plain (rec : Center → Op → Center × List Ev) (n : Name) (s : Obj) (d : Data)
+    (c : Center) (regs : List Reg) (hh : c.holds = []) (hd : c.disabled = []) (hs : c.scripts = []) :
+    runAll (deliverOne rec n s d none) c regs =
+      (c, (regs.filter (fun r => r.observer ∉ c.dead)).map (deliverEv n s d)) := by
+  induction regs with
+  | nil => rfl
+  | cons r rs ih =>
+    rw [runAll_cons, deliverOne_plain rec n s d c r hh hd hs]
+    simp only [ih]
+    by_cases hdead : r.observer ∈ c.dead <;> simp [hdead]
+
+private theorem runAll_deliverKey_plain (rec : Center → Op → Center × List Ev) (n : Name) (s : Obj) (d : Data)
+    (c : Center) (ks : List RKey) (hh : c.holds = []) (hd : c.disabled = []) (hs : c.scripts = []) :
+    runAll (deliverKey rec n s d none) c ks =
+      (c, ((ks.flatMap (regsAt c)).filter (fun r => r.observer ∉ c.dead)).map (deliverEv n s d)) := by
+  induction ks with
+  | nil => rfl
+  | cons k ks ih =>
+    rw [runAll_cons]
+    unfold deliverKey at ih ⊢
+    rw [runAll_deliverOne_plain rec n s d c _ hh hd hs]
+    simp only [ih]
+    simp
+
+/-- With nothing suspended: state unchanged, deliveries = all matching live registrations, in
+order (least → most specific key, registration order within), one per registration. -/
+theorem post_exact_unsuspended (rec : Center → Op → Center × List Ev) (c : Center) (n : Name) (s : Obj)
+    (d : Data) (hh : c.holds = []) (hd : c.disabled = []) (hs : c.scripts = []) :
+    post rec c n s d none =
+      (c, ((matching c n s).filter (fun r => r.observer ∉ c.dead)).map (deliverEv n s d)) := by
+  unfold post
+  simp only [isDisabled, firstHold, AL.contains, hh, hd, senderKeys]
+  simp only [AL.get?_nil, Option.isSome_none, List.any_cons, List.any_nil, Bool.or_self,
+    Bool.false_eq_true, if_false, List.find?_cons, List.find?_nil]
+  exact runAll_deliverKey_plain rec n s d c _ hh hd hs
+
+/-- Nothing is ever delivered to a dead observer — for any callback interpreter. -/
+theorem no_delivery_to_dead (rec : Center → Op → Center × List Ev) (n : Name) (s : Obj) (d : Data)
+    (t : Option Obj) (c : Center) (r : Reg) (hdead : r.observer ∈ c.dead) :
+    (deliverOne rec n s d t c r).2 = [] := by
+  unfold deliverOne
+  split
+  · rfl
+  · split
+    · rfl
+    · split
+      · rfl
+      · simp [hdead]
+
+/-! ## 4. Disable, hold, release -/
+
+/-- A post matched by a sender-side disable is dropped for good: no event, no state change. -/
+theorem disable_drops (rec : Center → Op → Center × List Ev) (c : Center) (n : Name) (s : Obj) (d : Data)
+    (t : Option Obj) (h : isDisabled c (senderKeys n s) = true) : post rec c n s d t = (c, []) := by
+  unfold post; simp [h]
+
+/-- A post matched by a sender-side hold (and no disable) delivers nothing and is appended to the
+queue of the least specific matching hold — unless an equal notification is already pending. -/
+theorem hold_queues (rec : Center → Op → Center × List Ev) (c : Center) (n : Name) (s : Obj) (d : Data)
+    (t : Option Obj) (hk : HKey) (hd : isDisabled c (senderKeys n s) = false)
+    (hh : firstHold c (senderKeys n s) = some hk) :
+    post rec c n s d t = (enqueue c hk ⟨n, s, d, t⟩, []) := by
+  unfold post; simp [hd, hh]
+
+/-- equal pending notifications coalesce -/
+theorem hold_coalesces (c : Center) (h : Inv c) (hk : HKey) (note : Note) :
+    enqueue (enqueue c hk note) hk note = enqueue c hk note := by
+  cases hg : AL.get? c.holds hk with
+  | none => simp [enqueue, hg]
+  | some hd =>
+    by_cases hm : note ∈ hd.queue
+    · simp [enqueue, hg, hm]
+    · have : enqueue c hk note = { c with holds := AL.set c.holds hk { hd with queue := hd.queue ++ [note] } } := by
+        simp [enqueue, hg, hm]
+      rw [this]
+      simp [enqueue]
+
+/-- first-post order: a new pending notification goes to the end of the queue -/
+theorem hold_fifo (c : Center) (hk : HKey) (hd : Hold) (note : Note)
+    (hg : AL.get? c.holds hk = some hd) (hm : note ∉ hd.queue) :
+    AL.get? (enqueue c hk note).holds hk = some { hd with queue := hd.queue ++ [note] } := by
+  simp [enqueue, hg, hm]
+
+/-- holds nest: releasing a hold requested more than once only decrements the count; nothing is
+delivered and the queue is kept -/
+theorem release_nests (rec : Center → Op → Center × List Ev) (c : Center) (hk : HKey) (hd : Hold)
+    (hg : AL.get? c.holds hk = some hd) (hc : 1 < hd.count) :
+    release rec c hk =
+      ({ c with holds := AL.set c.holds hk { hd with count := hd.count - 1 } }, [.ret .ok]) := by
+  unfold release
+  have : ¬ (hd.count - 1 = 0) := by omega
+  simp [hg, this]
+
+/-- the last release removes the hold and re-posts the queue in first-post order -/
+theorem release_last (rec : Center → Op → Center × List Ev) (c : Center) (hk : HKey) (hd : Hold)
+    (hg : AL.get? c.holds hk = some hd) (hc : hd.count = 1) :
+    release rec c hk =
+      let r := runAll (fun c (q : Note) => post rec c q.name q.sender q.data q.target)
+                 { c with holds := AL.erase c.holds hk } hd.queue
+      (r.1, r.2 ++ [.ret .ok]) := by
+  unfold release
+  simp [hg, hc]
+
+/-- releasing or enabling something that is not suspended raises KeyError and changes nothing -/
+theorem release_unknown (rec : Center → Op → Center × List Ev) (c : Center) (hk : HKey)
+    (hg : AL.get? c.holds hk = none) : release rec c hk = (c, [.ret (.err .keyError)]) := by
+  unfold release; simp [hg]
+
+theorem enable_unknown (c : Center) (hk : HKey) (hg : AL.get? c.disabled hk = none) :
+    enable c hk = (c, .err .keyError) := by
+  unfold enable; simp [hg]
+
+/-- disables nest: n disables need n enables -/
+theorem disable_nests (c : Center) (h : Inv c) (hk : HKey) :
+    AL.contains (disable c hk).disabled hk = true ∧
+    (enable (disable c hk) hk).1.disabled = c.disabled ∨
+    AL.contains (enable (disable c hk) hk).1.disabled hk = true := by
+  cases hg : AL.get? c.disabled hk with
+  | none =>
+    left
+    refine ⟨by simp [disable], ?_⟩
+    simp only [enable, disable, AL.get?_set_self, hg, Option.getD_none]
+    simp only [Nat.zero_add, Nat.sub_self, if_true]
+    have hnot : hk ∉ AL.keys c.disabled := by
+      intro hm
+      have : ∃ v, (hk, v) ∈ c.disabled := by
+        simp only [AL.keys, List.mem_map] at hm
+        obtain ⟨⟨k, v⟩, hm, rfl⟩ := hm
+        exact ⟨v, hm⟩
+      obtain ⟨v, hv⟩ := this
+      rw [AL.get?_of_mem_nodup h.disKeys hv] at hg
+      simp at hg
+    clear hg
+    generalize c.disabled = l at hnot
+    induction l with
+    | nil => simp [AL.set, AL.erase]
+    | cons p r ih =>
+      obtain ⟨k', v'⟩ := p
+      simp only [AL.keys, List.map_cons, List.mem_cons, not_or] at hnot
+      have hne : k' ≠ hk := fun e => hnot.1 e.symm
+      simp only [AL.set, hne, if_false, AL.erase]
+      rw [ih (by simpa [AL.keys] using hnot.2)]
+  | some m =>
+    right
+    have hpos := h.disPos _ (AL.mem_of_get? hg)
+    simp only at hpos
+    have : m ≠ 0 := by omega
+    simp [enable, disable, hg, this]
+
+/-- A suspension under a key that is none of the candidate keys of a lookup does not affect it:
+scopes are independent. -/
+theorem scopes_independent_disable (c : Center) (hk : HKey) (ks : List HKey) (h : hk ∉ ks) :
+    isDisabled (disable c hk) ks = isDisabled c ks := by
+  unfold isDisabled disable
+  simp only [AL.contains_set]
+  induction ks with
+  | nil => rfl
+  | cons k ks ih =>
+    simp only [List.mem_cons, not_or] at h
+    simp only [List.any_cons, ih h.2]
+    simp [h.1]
+
+theorem scopes_independent_hold (c : Center) (hk : HKey) (note : Option Nat) (ks : List HKey) (h : hk ∉ ks) :
+    firstHold (hold c hk note) ks = firstHold c ks := by
+  unfold firstHold hold
+  simp only [AL.contains_set]
+  induction ks with
+  | nil => rfl
+  | cons k ks ih =>
+    simp only [List.mem_cons, not_or] at h
+    simp only [List.find?_cons, ih h.2]
+    simp [h.1]
+
+/-- hold/disable tables never influence each other or the registry -/
+theorem suspend_leaves_registry (c : Center) (hk : HKey) (note : Option Nat) (k : RKey) :
+    regsAt (hold c hk note) k = regsAt c k ∧ regsAt (disable c hk) k = regsAt c k ∧
+    (hold c hk note).disabled = c.disabled ∧ (disable c hk).holds = c.holds := ⟨rfl, rfl, rfl, rfl⟩
+
+/-- Whole-post form of scope independence: an extra disable under a key that is neither a
+sender-side candidate of `(n, s)` nor an observer-side candidate of any matching registration
+changes no delivery. -/
+theorem post_scope_independent (rec : Center → Op → Center × List Ev) (c : Center) (n : Name) (s : Obj)
+    (d : Data) (hk : HKey) (hs : c.scripts = [])
+    (hd : isDisabled c (senderKeys n s) = false) (hh : firstHold c (senderKeys n s) = none)
+    (h1 : hk ∉ senderKeys n s) (h2 : ∀ r ∈ matching c n s, hk ∉ observerKeys n s r.observer) :
+    (post rec (disable c hk) n s d none).2 = (post rec c n s d none).2 := by
+  have hd' : isDisabled (disable c hk) (senderKeys n s) = false := by
+    rw [scopes_independent_disable c hk _ h1]; exact hd
+  rw [(post_exact rec c n s d none hs hd hh).1,
+      (post_exact rec (disable c hk) n s d none hs hd' hh).1]
+  have hm : matching (disable c hk) n s = matching c n s := rfl
+  rw [hm]
+  congr 1
+  apply List.filter_congr
+  intro r hr
+  unfold deliverable
+  rw [scopes_independent_disable c hk _ (h2 r hr)]
+  rfl
+
+/-! ## 5. Observer-scoped hold is per observer -/
+
+/-- With a single hold scoped to observer `o` (any name, any sender) and nothing else suspended,
+a post is delivered immediately to every other live matching registration and to none of `o`'s. -/
+theorem observer_scoped_hold_is_per_observer (rec : Center → Op → Center × List Ev) (c : Center)
+    (o : Obj) (hd0 : Hold) (n : Name) (s : Obj) (d : Data)
+    (hh : c.holds = [((none, none, some o), hd0)]) (hd : c.disabled = []) (hs : c.scripts = []) :
+    (post rec c n s d none).2 =
+      ((matching c n s).filter (fun r => r.observer ≠ o ∧ r.observer ∉ c.dead)).map (deliverEv n s d) := by
+  have h1 : isDisabled c (senderKeys n s) = false := by simp [isDisabled, AL.contains, hd, senderKeys]
+  have h2 : firstHold c (senderKeys n s) = none := by
+    simp [firstHold, AL.contains, hh, senderKeys]
+  rw [(post_exact rec c n s d none hs h1 h2).1]
+  congr 1
+  apply List.filter_congr
+  intro r _
+  unfold deliverable
+  simp only [isDisabled, firstHold, AL.contains, hh, hd, observerKeys]
+  by_cases e : r.observer = o
+  · subst e; simp
+  · have e' : ¬ o = r.observer := fun x => e x.symm
+    simp [e, e']
+
+/-- … and when that hold is released, the queued notifications are re-posted restricted to `o`:
+the private target excludes every other observer. -/
+theorem release_targets_only_holder (rec : Center → Op → Center × List Ev) (n : Name) (s : Obj) (d : Data)
+    (o : Obj) (c : Center) (r : Reg) (h : r.observer ≠ o) :
+    deliverOne rec n s d (some o) c r = (c, []) := by
+  unfold deliverOne
+  have : (some o : Option Obj) ≠ some r.observer := by
+    intro e; injection e with e; exact h e.symm
+  simp [this]
+
+/-! ## 6. Lookup exactness -/
+
+/-- findObservations reports exactly the registrations that match the filter: every reported
+record comes from a registration stored under a matching key for a matching observer whose
+identifier matches the pattern, and every such registration is reported. -/
+theorem find_exact (c : Center) (o : Option Obj) (n : Option Name) (s : Option Obj) (pat : Option String)
+    (f : Found) :
+    f ∈ findObs c o n s pat ↔
+      ∃ kr ∈ c.registry, ∃ r ∈ kr.2,
+        keyOk n s kr.1 = true ∧ identOk pat r.ident = true ∧ obsOk o r.observer = true ∧
+        f = ⟨if r.observer ∈ c.dead then none else some r.observer, kr.1.2, kr.1.1, r.ident⟩ := by
+  unfold findObs
+  simp only [List.mem_flatMap]
+  constructor
+  · rintro ⟨kr, hkr, hf⟩
+    refine ⟨kr, hkr, ?_⟩
+    by_cases hk : keyOk n s kr.1 = true
+    · rw [if_pos hk] at hf
+      simp only [List.mem_filterMap] at hf
+      obtain ⟨r, hr, hsome⟩ := hf
+      refine ⟨r, hr, hk, ?_⟩
+      by_cases hok : (identOk pat r.ident && obsOk o r.observer) = true
+      · rw [if_pos hok] at hsome
+        simp only [Bool.and_eq_true] at hok
+        exact ⟨hok.1, hok.2, (Option.some.inj hsome).symm⟩
+      · rw [if_neg hok] at hsome; simp at hsome
+    · rw [if_neg hk] at hf; simp at hf
+  · rintro ⟨kr, hkr, r, hr, hk, hi, ho, hf⟩
+    refine ⟨kr, hkr, ?_⟩
+    rw [if_pos hk]
+    simp only [List.mem_filterMap]
+    refine ⟨r, hr, ?_⟩
+    simp [hi, ho, hf]
+
+/-- what the three filters mean -/
+theorem keyOk_iff (n : Option Name) (s : Option Obj) (k : RKey) :
+    keyOk n s k = true ↔ (n = none ∨ k.1 = n) ∧ (s = none ∨ k.2 = s) := by
+  unfold keyOk
+  cases n <;> cases s <;> simp
+
+theorem obsOk_iff (o : Option Obj) (x : Obj) : obsOk o x = true ↔ (o = none ∨ o = some x) := by
+  cases o with
+  | none => simp [obsOk]
+  | some y => simp [obsOk]; exact eq_comm
+
+theorem identOk_iff (pat ident : Option String) :
+    identOk pat ident = true ↔
+      (pat = none ∨ ∃ p i, pat = some p ∧ ident = some i ∧ glob p.toList i.toList = true) := by
+  cases pat with
+  | none => simp [identOk]
+  | some p =>
+    cases ident with
+    | none => simp [identOk]
+    | some i => simp [identOk]
+
+/-! ## 7. Non-vacuity: concrete states meeting the hypotheses, and the laws in action -/
+
+def demo : Center := (run 8 {} [.add 10 1 (some 1) (some 2) (some "a.b"), .add 11 1 none none none,
+  .add 12 2 (some 1) none none, .add 10 2 none none none]).1
+
+example : Inv demo := inv_reachable 8 _
+example : demo.holds = [] ∧ demo.disabled = [] ∧ demo.scripts = [] := by decide
+example : (post noRec demo 1 2 7 none).2 =
+    [.deliver 11 1 1 2 7, .deliver 10 2 1 2 7, .deliver 12 2 1 2 7, .deliver 10 1 1 2 7] := by decide
+/-- an observer-scoped hold: others receive now, the holder at release, nobody twice -/
+example : (run 8 demo [.hold none none (some 10) none, .post 1 2 7 none, .release none none (some 10)]).2 =
+    [.ret .ok, .deliver 11 1 1 2 7, .deliver 12 2 1 2 7, .ret .ok,
+     .deliver 10 2 1 2 7, .deliver 10 1 1 2 7, .ret .ok] := by decide
+/-- nested holds, coalescing, and a re-entrant self-removal from inside a callback -/
+example : (run 8 demo [.hold (some 1) none none none, .hold (some 1) none none none, .post 1 2 7 none,
+    .post 1 2 7 none, .release (some 1) none none, .script 11 1 [.remove 11 none none, .post 1 3 0 none],
+    .release (some 1) none none, .post 1 2 1 none]).2 =
+    [.ret .ok, .ret .ok, .ret .ok, .ret .ok, .ret .ok, .ret .ok,
+     .deliver 11 1 1 2 7, .ret .ok, .deliver 10 2 1 3 0, .deliver 12 2 1 3 0, .ret .ok,
+     .deliver 10 2 1 2 7, .deliver 12 2 1 2 7, .deliver 10 1 1 2 7, .ret .ok,
+     .deliver 10 2 1 2 1, .deliver 12 2 1 2 1, .deliver 10 1 1 2 1, .ret .ok] := by decide
 
 end DefconModel.Props.C04
